@@ -272,7 +272,7 @@ func (dm *DMap) checkPutConditions(e *env) error {
 	}
 
 	// Only set the key if it already exists.
-	if e.putConfig.HasXX && !e.fragment.storage.Check(e.hkey) {
+	if e.putConfig.HasXX {
 		ttl, err := e.fragment.storage.GetTTL(e.hkey)
 		if err == nil {
 			if isKeyExpired(ttl) {
